@@ -194,7 +194,13 @@ def run_opt(case):
             acc.sigs.add(sig)
             return acc.result()
         if fault:
-            # an interrupted run that returns nothing although an incumbent existed
+            # an interrupted run that returns nothing although an incumbent existed (announced, or at least found:
+            # a check() of the loop answered sat before the stop)
+            if not incumbents and "sat" in checks and not fault.get("unknown_at_check"):
+                acc.violation("C07.early_stop_lost_incumbent", "lost", {"fault": sorted(fault), "announced": False},
+                              {"checks": checks})
+                acc.sigs.add(sig)
+                return acc.result()
             if incumbents:
                 acc.violation("C07.early_stop_lost_incumbent", "lost", {"fault": sorted(fault)},
                               {"incumbents": incumbents, "checks": checks})
@@ -237,6 +243,15 @@ def run_opt(case):
                 acc.count(acc.outcomes, f"incumbents>={thr}")
         if not mono:
             acc.violation("C07.incumbents_not_improving", "order", {"fault": sorted(fault)}, {"incumbents": incumbents})
+        nsat = sum(1 for c in checks if c == "sat")
+        if cfg.get("optimizer", "incremental") == "incremental" and incumbents and not fault.get("unknown_at_check"):
+            # every schedule the loop finds is announced; one found (check() == sat) after the last announcement and
+            # not returned is a better schedule that was dropped
+            okn = nsat <= len(incumbents)
+            acc.count(acc.clauses, f"C07.every_found_schedule_announced:{'T' if okn else 'F'}")
+            if not okn:
+                acc.violation("C07.returned_worse_than_found", "worse", {"fault": sorted(fault)},
+                              {"sat_checks": nsat, "announced": incumbents, "returned": got})
         if incumbents:
             best = min(incumbents) if d == "min" else max(incumbents)
             okb = got == best and got == incumbents[-1]
